@@ -31,7 +31,7 @@ PART = ("PARTIAL proof level: the theorems cover the atomic layer (emplace/extra
         "(fields, dynamic-length types, explicit / bit positions, BYTE-SIZE, length keys) is NOT a theorem: it is decided by the model/implementation correspondence on generated "
         "ODX documents plus the property's direct oracle on the implementation. ")
 CODEC_NOTE = TB + ("Model scope: strict mode; int/bytefield/string base types (no floats), STANDARD/MIN-MAX/LEADING-LENGTH/PARAM-LENGTH types, IDENTICAL and integer "
-        "LINEAR compu, structures, 4 field kinds, 7 parameter kinds; multiplexer, tables, DTC, env-data not modelled. String codecs re-implemented in Gallina; "
+        "LINEAR compu, structures, 4 field kinds, 7 parameter kinds; multiplexer, tables, DTC, env-data, floats and real-valued physical types are not modelled: hand-written ODX documents exercise them against direct oracles only (codec_checks.py UNMODELLED_DOC, UNMODELLED_DOC2, REAL_DOPS, the float document, snoop telegram sequences). String codecs re-implemented in Gallina; "
         "bitstruct modelled as shift/mask arithmetic. Own ODX emitter and generators are trusted for coverage. ")
 CHECKS.update({
  "C01": (PART + "Oracle: decode(encode(v)) returns v plus defaults/constants and reads the whole PDU.", CODEC_NOTE,
@@ -58,7 +58,7 @@ CHECKS.update({
 CHECKS["C07"] = ("Coq theorems over all coefficients / limits / values (exact integer arithmetic): rounding is nearest with ties to even, limit semantics, LINEAR formula and inverse for slope magnitude > 1 "
     "(with the unit-slope tie refutation), validity <-> limits, valid physical values convert, continuous increasing SCALE-LINEAR always encodes, TAB-INTP valid values always convert (discrete intermediate value theorem). "
     "Model tied to odxtools.compumethods by correspondence over 7 categories x every value of -3..258 plus an exact-fraction oracle.",
-    TB + "Integer internal/physical types and integer coefficients only; float-typed methods and behaviour outside the binary64 exactness envelope are modelled-not-verified; COMPUCODE not modelled.",
+    TB + "Model: integer internal/physical types and integer coefficients only; float-typed methods are decided by an oracle against exact rational arithmetic (neighbouring doubles of dyadic limits; decimal piecewise-linear methods), no theorem; COMPUCODE not modelled.",
     "Rocq/Coq proof (nearest-rounding lemmas, induction over segments) + correspondence with exact rational oracle", "DESIGN.md §3 C07")
 CHECKS["C06"] = ("Coq theorems for all entry sets / messages: the prefix tree finds exactly the services filed under a non-empty prefix of the message (induction over the trie, with the empty-prefix refutation = recorded finding); "
     "the layer reports exactly the candidates that contribute a message and raises DecodeError iff none does. Model tied to DiagLayer.decode / decode_response / service_groups by correspondence on generated layers "
@@ -68,11 +68,11 @@ CHECKS["C06"] = ("Coq theorems for all entry sets / messages: the prefix tree fi
 CHECKS["C09"] = ("Coq theorems for every hierarchy / layer / fuel: unique names, local override, every visible object is local or inherited from a parent and not excluded, every non-excluded parent name is visible; the object seen under an inherited name comes through a parent of maximal priority among the exposing parents and all exposing parents of that priority expose the same object (else not IOk: a conflict is reported); priority table obligation regenerated from source. "
     "Model (transcription of _compute_available_objects incl. dictionary order, priority comparison through the parent, conflict test) tied to loaded ODX hierarchies by correspondence for 5 categories plus an independent declarative visibility oracle "
     "and decode of an inherited service.",
-    TB + "The converse 'a conflict is reported ONLY when two maximal-priority parents disagree' is carried by correspondence + oracle. Categories not generated: tables, state charts, unit groups, jobs.",
+    TB + "The converse (C09_conflict_only_when_real: a conflict is reported only if a parent's view is in conflict or two parents of equal priority expose different objects under a name the layer does not define) and the priority order of the parents (sort_desc is a sorted permutation) are theorems too. Categories not generated: tables, state charts.",
     "Rocq/Coq proof (dictionary invariant by induction over parent refs) + correspondence + declarative oracle", "DESIGN.md §3 C09")
 CHECKS["C15"] = ("Coq theorems: protocol-specific definition before generic (any instance list), value defaults; refutation of the pre-fix first-hit lookup; for every hierarchy and layer: keys (specification, protocol) are unique, a local definition wins, otherwise the parent folded in last (ascending priority order) which knows the key wins and ignorant parents change nothing. Model of the (spec, protocol)-keyed override through the hierarchy, get_comparam, get_value, get_subvalue tied to loaded hierarchies by correspondence; "
     "oracle: declarative override, specific-first lookup, default fallback, typed accessors equal the numeric content.",
-    TB + "PARTIAL: that sort_asc orders the parents by priority is not a theorem (correspondence + declarative oracle cover it). DoIP accessors compared through the generic value path.",
+    TB + "sort_asc is proved to return a sorted permutation of the parent references (C15_parents_in_priority_order), hence C15_highest_priority_parent_wins independent of the order of the PARENT-REFs. DoIP accessors compared through the generic value path.",
     "Rocq/Coq proof (lookup precedence) + correspondence + declarative oracle", "DESIGN.md §3 C15")
 CHECKS["C14"] = ("Coq theorems for all candidate lists, all deterministic ECUs and all match oracles: the loop reports the first candidate with a pattern all of whose parameters match; outcome independent of caching; only identification requests of the candidates are issued; "
     "with caching no request is issued twice (cache-consistency and NoDup invariants by induction over parameters/patterns/variants). Model tied to VariantMatcher by correspondence on generated ECU-/base-variant databases x all response functions x cache on/off.",
@@ -93,9 +93,9 @@ CHECKS["C11"] = ("Coq theorems: element text written through |e and attribute va
     "the assembled database does not depend on the file order (permutations of documents with distinct names); the finite coverage obligation 'every tag / attribute name a from_et parser reads occurs in a template', regenerated from the sources and closed by vm_compute on every run. "
     "The per-element statement 'no attribute the parser reads is dropped or altered' is ENUMERATED, not proved: every dataclass field of every element class reachable in the base databases (shipped examples, generated link / codec / comparam documents, a hand-written document of rare elements) "
     "is set to a non-default value incl. all XML metacharacters -> write -> load -> tree comparison; second write byte equality; encode/decode behaviour; file orders x load entry points.",
-    TB + "PARTIAL: the jinja templates and from_et parsers are not modelled; element classes which no base database instantiates are reached only by the coverage obligation. Known findings: unwritten-names, docref-dropped and the (class, field) pairs listed in known_findings.json.",
+    TB + "PARTIAL: the jinja templates and from_et parsers are not modelled; element classes which no base database instantiates are reached only by the coverage obligation. Known findings: unwritten-names, docref-dropped, parent-ref-docref-added, diag-variables-unwritable (known_findings.json). Also checked: write history (a second write in one process), twin documents with equal local ids.",
     "Rocq/Coq proof (text-layer round trip by induction; insertion-sort permutation invariance; finite obligation by vm_compute) + reflective enumeration", "DESIGN.md §3 C11")
-NA_REASON = "check not built yet in this round (work in progress; DESIGN.md §6 gives the order of work)"
+NA_REASON = "no check registered"
 def main():
     checks = []
     for pid in sorted(CHECKS):
